@@ -279,3 +279,232 @@ Proof.
   apply app_inj_length in H; [|unfold len in Hl; lia].
   destruct H as [-> ->]. subst. reflexivity.
 Qed.
+
+(* ====================================================================== *)
+(* Fischlin / randomised Fischlin                                            *)
+
+(* The hash-target tests are tests on outputs of the hash oracle H; "a different context
+   is rejected" holds for these compilers only with overwhelming probability over the
+   oracle, which is not a statement about a fixed function H.  What is proved: the exact
+   acceptance condition (every repetition: challenge length, hash target on the exact
+   framing, sigma verdict; the repetition count), that it implies every sigma verdict, and
+   that the key / CRS the hashes are chained from is an extraction of the session
+   transcript that determines the whole context (so all hash queries of a verification in
+   another context are made under another key). *)
+
+Lemma fi_reps_iff H b elen len commonH i reps sv :
+  fi_reps H b elen len commonH i reps sv = true <->
+  forall j a e z, nth_error reps j = Some (a, e, z) ->
+    length e = elen /\ fi_target b (H (fi_rep_input commonH (i + N.of_nat j) e z)) = true /\
+    (length e <= len)%nat /\ sv (i + N.of_nat j) (pad_left len e) = true.
+Proof.
+  revert i. induction reps as [|[[a e] z] reps IH]; intros i; cbn [fi_reps].
+  - split; [|reflexivity]. intros _ [|k] ? ? ? Hn; discriminate.
+  - rewrite !andb_true_iff, IH, Nat.eqb_eq, Nat.leb_le. split.
+    + intros ((((H1 & H2) & H3) & H4) & Hall) [|j] a' e' z'; cbn [nth_error].
+      * intros [= <- <- <-]. rewrite N.add_0_r. repeat split; assumption.
+      * intros Hn. specialize (Hall j a' e' z' Hn).
+        replace (i + N.of_nat (S j)) with (i + 1 + N.of_nat j) by lia. exact Hall.
+    + intros Hall. destruct (Hall 0%nat a e z eq_refl) as (H1 & H2 & H3 & H4).
+      rewrite N.add_0_r in H2, H4. split; [repeat split; assumption|].
+      intros j a' e' z' Hn. specialize (Hall (S j) a' e' z' Hn).
+      replace (i + N.of_nat (S j)) with (i + 1 + N.of_nat j) in Hall by lia. exact Hall.
+Qed.
+
+(* exact acceptance condition of the Fischlin verifier *)
+Theorem fischlin_accept_iff xof H c pname stmt rho b t len reps sv :
+  fischlin_accept xof H c pname stmt rho b t len reps sv = true <->
+  N.of_nat (length reps) = rho /\
+  exists call, fi_key_call c pname stmt rho = Some call /\
+    let commonH := H (xof call ++ stmt ++ flat_map (fun r => fst (fst r)) reps ++ c_sid c) in
+    forall j a e z, nth_error reps j = Some (a, e, z) ->
+      length e = N.to_nat ((t + 7) / 8) /\
+      fi_target b (H (fi_rep_input commonH (N.of_nat j) e z)) = true /\
+      (length e <= len)%nat /\ sv (N.of_nat j) (pad_left len e) = true.
+Proof.
+  unfold fischlin_accept. rewrite andb_true_iff, N.eqb_eq.
+  destruct (fi_key_call c pname stmt rho) as [call|].
+  - rewrite fi_reps_iff. split.
+    + intros [Hc Hall]. split; [exact Hc|]. exists call. split; [reflexivity|exact Hall].
+    + intros [Hc (call' & [= <-] & Hall)]. split; [exact Hc|exact Hall].
+  - split; [intros [_ Hf]; discriminate|]. intros [_ (call & Hc & _)]. discriminate.
+Qed.
+
+(* a wrong number of repetitions, a challenge of the wrong length, or one rejecting sigma
+   transcript: rejected, whatever the hash *)
+Theorem fischlin_wrong_count xof H c pname stmt rho b t len reps sv :
+  N.of_nat (length reps) <> rho -> fischlin_accept xof H c pname stmt rho b t len reps sv = false.
+Proof.
+  intros Hne. destruct (fischlin_accept _ _ _ _ _ _ _ _ _ _ _) eqn:E; [|reflexivity].
+  apply fischlin_accept_iff in E. destruct E as [Hc _]. contradiction.
+Qed.
+
+Theorem fischlin_accept_sigma xof H c pname stmt rho b t len reps sv j a e z :
+  fischlin_accept xof H c pname stmt rho b t len reps sv = true ->
+  nth_error reps j = Some (a, e, z) ->
+  length e = N.to_nat ((t + 7) / 8) /\ sv (N.of_nat j) (pad_left len e) = true.
+Proof.
+  intros E Hn. apply fischlin_accept_iff in E. destruct E as [_ (call & _ & Hall)].
+  destruct (Hall j a e z Hn) as (H1 & _ & _ & H4). split; assumption.
+Qed.
+
+(* the Fischlin hash key is an extraction of the session transcript after the domain
+   separator (session id, protocol name), rho and the statement: it determines all of them
+   and the whole prior history *)
+Definition fi_valid (c : context) (pname stmt : bytes) : Prop :=
+  Forall valid_op (c_hist c) /\ small (fi_dst (c_sid c) pname) /\ small stmt.
+
+Lemma le_bytes_length k n : length (le_bytes k n) = k.
+Proof. revert n. induction k as [|k IH]; intros n; cbn [le_bytes length]; [reflexivity|]. rewrite IH. reflexivity. Qed.
+
+Lemma fi_ops_valid c pname stmt rho :
+  fi_valid c pname stmt -> Forall valid_op (c_hist c ++ fi_ops (c_sid c) pname stmt rho).
+Proof.
+  intros (Hh & Hd & Hs). apply Forall_app. split; [exact Hh|]. unfold fi_ops, small in *.
+  assert (L1 : len fi_rhoLabel < 2^64) by (vm_compute; reflexivity).
+  assert (L2 : len fi_statementLabel < 2^64) by (vm_compute; reflexivity).
+  assert (One : forall m : bytes, len [m] < 2^64) by (intros m; cbn; lia).
+  constructor; [exact Hd|]. constructor.
+  { cbn [valid_op]. split; [exact L1|split; [apply One|]]. constructor; [|constructor].
+    unfold len, le64. rewrite le_bytes_length. cbn. lia. }
+  constructor; [|constructor].
+  cbn [valid_op]. split; [exact L2|split; [apply One|]]. constructor; [exact Hs|constructor].
+Qed.
+
+Lemma le_bytes_inj k n m :
+  n < 256 ^ N.of_nat k -> m < 256 ^ N.of_nat k -> le_bytes k n = le_bytes k m -> n = m.
+Proof.
+  revert n m. induction k as [|k IH]; intros n m Hn Hm H.
+  - cbn in Hn, Hm. lia.
+  - cbn [le_bytes] in H. injection H as H0 H1.
+    rewrite Nat2N.inj_succ, N.pow_succ_r' in Hn, Hm.
+    apply IH in H1; [| apply N.div_lt_upper_bound; lia | apply N.div_lt_upper_bound; lia].
+    rewrite (N.div_mod n 256), (N.div_mod m 256) by lia. rewrite H0, H1. reflexivity.
+Qed.
+
+Theorem fischlin_key_call_inj c1 p1 s1 rho1 c2 p2 s2 rho2 k :
+  fi_valid c1 p1 s1 -> fi_valid c2 p2 s2 -> rho1 < 2^64 -> rho2 < 2^64 ->
+  fi_key_call c1 p1 s1 rho1 = Some k -> fi_key_call c2 p2 s2 rho2 = Some k ->
+  c_name c1 = c_name c2 /\ c_hist c1 = c_hist c2 /\
+  fi_dst (c_sid c1) p1 = fi_dst (c_sid c2) p2 /\ rho1 = rho2 /\ s1 = s2.
+Proof.
+  intros V1 V2 R1 R2 H1 H2. unfold fi_key_call, ext_call in H1, H2.
+  pose proof (fi_ops_valid _ _ _ rho1 V1) as F1. pose proof (fi_ops_valid _ _ _ rho2 V2) as F2.
+  assert (E : snd (step (fst (run (new_transcript (c_name c1)) (c_hist c1 ++ fi_ops (c_sid c1) p1 s1 rho1))) (Ext fi_commonHLabel 32)) =
+              snd (step (fst (run (new_transcript (c_name c2)) (c_hist c2 ++ fi_ops (c_sid c2) p2 s2 rho2))) (Ext fi_commonHLabel 32)))
+    by congruence.
+  assert (LL : len fi_commonHLabel < 2^64) by (vm_compute; reflexivity).
+  apply outputs_equal_iff in E; try assumption; try lia.
+  destruct E as (Hname & Hops & _ & _).
+  rewrite !performed_ops_valid in Hops by assumption.
+  apply app_inj_tail_length in Hops; [|reflexivity].
+  destruct Hops as [Hh Hops]. unfold fi_ops in Hops.
+  remember (le64 rho1) as r1 eqn:E1. remember (le64 rho2) as r2 eqn:E2.
+  remember (fi_dst (c_sid c1) p1) as d1 eqn:D1. remember (fi_dst (c_sid c2) p2) as d2 eqn:D2.
+  injection Hops as Hd Hr Hs. subst r1 r2.
+  assert (Hrho : rho1 = rho2).
+  { unfold le64 in Hr. apply le_bytes_inj in Hr; [exact Hr| |]; cbn; lia. }
+  split; [exact Hname|]. split; [exact Hh|]. split; [exact Hd|]. split; [exact Hrho|exact Hs].
+Qed.
+
+(* hence: a Fischlin verification in a context with another history, session id
+   (same-length, well-formed), protocol name or statement chains all its hashes from an
+   extraction with another XOF input (and, the XOF being injective, from another key) *)
+Theorem fischlin_other_context_other_key (xof : xof_call -> bytes) c1 p1 s1 c2 p2 s2 rho k1 k2 :
+  (forall a b, xof a = xof b -> a = b) ->
+  fi_valid c1 p1 s1 -> fi_valid c2 p2 s2 -> rho < 2^64 ->
+  fi_key_call c1 p1 s1 rho = Some k1 -> fi_key_call c2 p2 s2 rho = Some k2 ->
+  (c_hist c1 <> c_hist c2 \/ fi_dst (c_sid c1) p1 <> fi_dst (c_sid c2) p2 \/ s1 <> s2) ->
+  xof k1 <> xof k2.
+Proof.
+  intros Hinj V1 V2 R H1 H2 Hd Heq. apply Hinj in Heq. subst k2.
+  destruct (fischlin_key_call_inj _ _ _ _ _ _ _ _ _ V1 V2 R R H1 H2) as (_ & A & B & _ & C).
+  destruct Hd as [Hd|[Hd|Hd]]; contradiction.
+Qed.
+
+(* ---------- randomised Fischlin ---------- *)
+
+Lemma rf_reps_iff H crs aall i reps sv :
+  rf_reps H crs aall i reps sv = true <->
+  forall j a e z, nth_error reps j = Some (a, e, z) ->
+    forallb (fun x => N.eqb x 0) (firstn rf_LBytes (H (rf_rep_input crs aall (i + N.of_nat j) e z))) = true /\
+    sv (i + N.of_nat j) e = true.
+Proof.
+  revert i. induction reps as [|[[a e] z] reps IH]; intros i; cbn [rf_reps].
+  - split; [|reflexivity]. intros _ [|k] ? ? ? Hn; discriminate.
+  - rewrite !andb_true_iff, IH. split.
+    + intros ((H1 & H2) & Hall) [|j] a' e' z'; cbn [nth_error].
+      * intros [= <- <- <-]. rewrite N.add_0_r. split; assumption.
+      * intros Hn. specialize (Hall j a' e' z' Hn).
+        replace (i + N.of_nat (S j)) with (i + 1 + N.of_nat j) by lia. exact Hall.
+    + intros Hall. destruct (Hall 0%nat a e z eq_refl) as (H1 & H2).
+      rewrite N.add_0_r in H1, H2. split; [split; assumption|].
+      intros j a' e' z' Hn. specialize (Hall (S j) a' e' z' Hn).
+      replace (i + N.of_nat (S j)) with (i + 1 + N.of_nat j) in Hall by lia. exact Hall.
+Qed.
+
+(* exact acceptance condition of the randomised-Fischlin verifier.  Note what is absent:
+   there is no condition on the length of e_j — the verifier has none (finding
+   randfischlin-challenge-leading-zeros) *)
+Theorem randfischlin_accept_iff xof H c pname reps sv :
+  randfischlin_accept xof H c pname reps sv = true <->
+  N.of_nat (length reps) = rf_R /\
+  exists call, rf_crs_call c pname = Some call /\
+    forall j a e z, nth_error reps j = Some (a, e, z) ->
+      forallb (fun x => N.eqb x 0)
+        (firstn rf_LBytes (H (rf_rep_input (xof call) (flat_map (fun r => fst (fst r)) reps) (N.of_nat j) e z))) = true /\
+      sv (N.of_nat j) e = true.
+Proof.
+  unfold randfischlin_accept. rewrite andb_true_iff, N.eqb_eq.
+  destruct (rf_crs_call c pname) as [call|].
+  - rewrite rf_reps_iff. split.
+    + intros [Hc Hall]. split; [exact Hc|]. exists call. split; [reflexivity|exact Hall].
+    + intros [Hc (call' & [= <-] & Hall)]. split; [exact Hc|exact Hall].
+  - split; [intros [_ Hf]; discriminate|]. intros [_ (call & Hc & _)]. discriminate.
+Qed.
+
+Theorem randfischlin_wrong_count xof H c pname reps sv :
+  N.of_nat (length reps) <> rf_R -> randfischlin_accept xof H c pname reps sv = false.
+Proof.
+  intros Hne. destruct (randfischlin_accept _ _ _ _ _ _) eqn:E; [|reflexivity].
+  apply randfischlin_accept_iff in E. destruct E as [Hc _]. contradiction.
+Qed.
+
+Definition rf_valid (c : context) (pname : bytes) : Prop :=
+  Forall valid_op (c_hist c) /\
+  small (rf_transcriptLabel ++ dash ++ pname ++ dash ++ hex_bytes (c_sid c)) /\
+  small (rf_transcriptLabel ++ dash ++ hex_bytes (c_sid c)).
+
+(* the CRS is an extraction that determines the prior history, the protocol name and the
+   session id *)
+Theorem randfischlin_crs_call_inj c1 p1 c2 p2 k :
+  rf_valid c1 p1 -> rf_valid c2 p2 ->
+  wf_bytes (c_sid c1) -> wf_bytes (c_sid c2) ->
+  rf_crs_call c1 p1 = Some k -> rf_crs_call c2 p2 = Some k ->
+  c_name c1 = c_name c2 /\ c_hist c1 = c_hist c2 /\ c_sid c1 = c_sid c2 /\ p1 = p2.
+Proof.
+  intros (Vh1 & Va1 & Vb1) (Vh2 & Va2 & Vb2) W1 W2 H1 H2. unfold rf_crs_call, ext_call in H1, H2.
+  assert (F : forall c p, Forall valid_op (c_hist c) ->
+              small (rf_transcriptLabel ++ dash ++ p ++ dash ++ hex_bytes (c_sid c)) ->
+              small (rf_transcriptLabel ++ dash ++ hex_bytes (c_sid c)) ->
+              Forall valid_op (c_hist c ++ rf_ops (c_sid c) p)).
+  { intros c p Vh Va Vb. apply Forall_app. split; [exact Vh|]. unfold rf_ops. repeat constructor; assumption. }
+  assert (E : snd (step (fst (run (new_transcript (c_name c1)) (c_hist c1 ++ rf_ops (c_sid c1) p1))) (Ext rf_crsLabel 32)) =
+              snd (step (fst (run (new_transcript (c_name c2)) (c_hist c2 ++ rf_ops (c_sid c2) p2))) (Ext rf_crsLabel 32)))
+    by congruence.
+  assert (LL : len rf_crsLabel < 2^64) by (vm_compute; reflexivity).
+  apply outputs_equal_iff in E; try (apply F; assumption); try assumption; try lia.
+  destruct E as (Hname & Hops & _ & _).
+  rewrite !performed_ops_valid in Hops by (apply F; assumption).
+  apply app_inj_tail_length in Hops; [|reflexivity].
+  destruct Hops as [Hh Hops]. unfold rf_ops in Hops.
+  remember (rf_transcriptLabel ++ dash ++ p1 ++ dash ++ hex_bytes (c_sid c1)) as A1 eqn:EA1.
+  remember (rf_transcriptLabel ++ dash ++ p2 ++ dash ++ hex_bytes (c_sid c2)) as A2 eqn:EA2.
+  remember (rf_transcriptLabel ++ dash ++ hex_bytes (c_sid c1)) as B1 eqn:EB1.
+  remember (rf_transcriptLabel ++ dash ++ hex_bytes (c_sid c2)) as B2 eqn:EB2.
+  injection Hops as Hd1 Hd2. subst A1 A2 B1 B2.
+  apply app_inv_head in Hd2. apply app_inv_head in Hd2. apply hex_bytes_inj in Hd2; try assumption.
+  rewrite Hd2 in Hd1. apply app_inv_head in Hd1. apply app_inv_head in Hd1.
+  apply app_inv_tail in Hd1.
+  split; [exact Hname|]. split; [exact Hh|]. split; [exact Hd2|exact Hd1].
+Qed.
